@@ -410,7 +410,7 @@ func reuseScenario(rng *rand.Rand, out func(map[string]interface{})) {
 				r.log(map[string]interface{}{"ev": "stuck", "what": "released functions did not end"})
 				ok = false
 			}
-			time.Sleep(20 * time.Millisecond)
+			time.Sleep(30 * time.Millisecond)
 		}
 	}
 	if ok {
